@@ -14,6 +14,7 @@ import os
 import random
 from typing import Any
 
+from vp.core import reraise_harness_fault as core_reraise
 from vp.core import Check, Failure, drive, enc, load_corpus
 
 META = dict(
@@ -202,6 +203,7 @@ def oracle(case: dict) -> Failure | None:
     try:
         method, prog = pc.parse_text(text, custom_ids=case.get("ids") == "custom")
     except Exception as e:
+        core_reraise(e)
         return Failure(f"parse-raises:{type(e).__name__}", case,
                        f"parsing the method raised {type(e).__name__}: {e} — parsing must never fail")
     nodes = pc.preorder(prog)
